@@ -64,6 +64,10 @@ CHECKS["C11"] = ("fvh-blackbox", "generated histories with an independent AOF de
          "generated multi-connection histories over the write catalogue through four paths (direct, MULTI/EXEC, scripts incl. EVALSHA, blocked pops served by a push) with SELECT, random-outcome and failing commands against a server with appendonly on; after every step the AOF on disk must decode into whole command frames; at the end the frames are replayed in file order into an empty server and the canonical dumps of all 16 databases must be equal; the log minus SELECT frames must be a subsequence of the executed commands in execution order (random outcomes in outcome-preserving form).",
          "durability (fsync) is not observable and not claimed; the harness replays the log itself because the server's own start-up replay is a no-op; a step without reply is inconclusive (liveness is C06's)", "3/C11")
 
+CHECKS["C12"] = ("fvh-blackbox", "twin-server differential over generated histories (command sent directly vs. wrapped in redis.call/pcall/KEYS/EVALSHA with a rendering of what the script saw), canonical dump equality after every step, generated return-value literals, concurrent atomicity workload",
+         "twin servers fed the same generated history over the deterministic data catalogue in a generated database: direct on one, wrapped in a script on the other; the rendering of what the script saw must equal the standard RESP->Lua conversion of the direct reply, errors must raise (call) or arrive as err-tables (pcall), and the canonical dumps must be equal after every step. Fixed script checks: KEYS/ARGV bytes incl. all 256 byte values, call-aborts/pcall-continues with earlier effects kept, EVALSHA == EVAL in a non-zero database, 23 sandbox escapes with a canary directory, 25 forbidden commands. Generated nested Lua literals returned by a script vs. the standard Lua->RESP conversion. Atomicity: concurrent script transfers with invariant-checking observers.",
+         "status replies and nil replies reach scripts in a non-standard form pinned by the repository's tests (K10, K11: compared modulo exactly that); return conversions the tests pin differently (false, floats, empty table) are not generated; a script's effect on blocked clients is C13's", "3/C12")
+
 checks = []
 for i in ids:
     if i in CHECKS:
